@@ -63,6 +63,18 @@ TEXTS = {
         "text": "One abstract plan is instantiated on 2-5 sibling policies of different flavours; the outcome tables must be identical and every registered alias id of a class must reach that class's definitions (objects carry any registered alias).",
         "note": "std_rtti runs on the K<c> class tokens; the other flavours use the simulator's id table",
     },
+    "C12": {
+        "technique": SIM + "registries x update histories x stale / perturbed generated headers (fault); generated text vs installed offsets, differential against the twin policy without static offsets, accept / reject by the run-time consistency check",
+        "design_ref": "DESIGN.md 4 (C12)",
+        "text": "The generated header is durable state that crosses a process boundary: it is written by one run of the program and compiled into another whose registrations may have changed. Per run, the real write_static_offsets output is parsed and must equal, position by position, the slots and strides update installed (read the way the non-static call path reads them); it is then installed in static_offsets<> specialisations of every pooled method of a twin policy and every sampled call (operator(), resolve, next) must give what the same registry gives on the policy that reads offsets at run time. With the checked twin, offsets equal to the installed ones must never be reported, and after a stale or perturbed header every call of a method whose offsets differ must be reported (slot or stride error, once, before any definition runs).",
+        "note": "the C++ compiler is replaced by a parser of the generated text; arity 1-4, every pooled parameter kind; std_rtti policies only",
+    },
+    "C13": {
+        "technique": SIM + "generator-process histories x consumer-process restarts; encode -> parse -> decode in a pristine policy; differential of outcome tables before / after, ASan-guarded emitted object, hash-budget fault inside decode",
+        "design_ref": "DESIGN.md 4 (C13)",
+        "text": "The encoded dispatch data is durable state produced by a generator process (after any load / unload / update history) and consumed by another process that holds the same registrations and never calls update. The simulator runs the real encode_dispatch_data on the compiler object of the last update, parses the emitted structure (bounds, initialisers, decode call), simulates the end of the process (every registration destroyed, every static of the policy back to zero), constructs the same registrations again, lays the emitted object out in one heap block of exactly its declared size and runs the real decode_dispatch_data on it; then every sampled call is resolved three ways and the outcome table must equal the one observed right after the encoded update; every look-up goes through the hash decode published. Violations of other properties' oracles count for C13 only if they were not already present before decoding.",
+        "note": "known finding K1: decode does not install next; whether the supported compilers accept the text is not decided (parser stub); same catalog order assumed in both processes",
+    },
     "C14": {
         "technique": SIM + "interleavings of registrations, updates (also aborted), handler changes over 2-3 policies sharing class ids",
         "design_ref": "DESIGN.md 4 (C14)",
@@ -97,8 +109,6 @@ TEXTS = {
 
 NOT_APPLICABLE = {
     "C11": "quantifies over template instantiations (programs): fixed at compile time, no schedule, fault or history to simulate",
-    "C12": "pure text function of installed arrays plus programs compiled with that text; nothing for a simulator to vary",
-    "C13": "pure function emitting source for another build; statements about the generated program, no interleaving or fault",
     "C19": "pure function from a set of strings to a string; no state, no environment",
     "C20": "compile-time template metaprogram; quantifies over generated programs",
 }
